@@ -15,7 +15,7 @@ from tapescript.functions import (bytes_to_bool, run_tape, set_tape_flags, flags
                                   _contracts, _plugins)
 from contracts.common import stack_ok, tape_ok
 from contracts.functions_ops import (OPCK, OPC_WEAK, vm_ok, clean, sigfields_ok, rd_u8, rd_u16, flags_typed,
-                                     no_plugins_at_all, ks_same_but_returned, opc_post, flags_complete)
+                                     no_plugins_at_all, ks_same_but_returned, opc_post, flags_complete, defs_ok)
 from contracts.functions_ops2 import plugins_ok, SIG_EXT, spec_check_sig, spec_verify
 from time import time
 
@@ -23,6 +23,11 @@ ALL = ('tape.pointer', 'tape.callstack_count', 'tape.definitions', 'tape.flags',
 
 
 # ------------------------------------------------------------------------------------- flags / run
+def requires_complete(tape, stack, cache):
+    """control instructions hand their configuration to a sub-script: the flag table must be complete"""
+    return flags_complete(tape) + defs_ok(tape)
+
+
 def default_flags():
     """the value set_tape_flags gives every str / int key of functions.flags"""
     return {k: (flags[k] if k in flags_to_set else False) for k in flags if type(k) in (str, int)}
@@ -80,10 +85,12 @@ class run_tape_c:
 
     def requires(tape, stack, cache, additional_flags):
         return tape_ok(tape) + stack_ok(stack) + [('clean', clean(cache))] + sigfields_ok(cache) + \
-            flags_typed_after(tape, additional_flags) + plugins_ok(tape, SIG_EXT) + plugins_ok(tape, 'check_template')
+            flags_typed_after(tape, additional_flags) + plugins_ok(tape, SIG_EXT) + plugins_ok(tape, 'check_template') + \
+            defs_ok(tape)
 
     def ensures(old, tape, stack, cache, additional_flags, result, raised):
-        return tape_ok(tape) + stack_ok(stack) + sigfields_ok(cache) + flags_typed(tape) + flags_complete(tape) + [
+        return tape_ok(tape) + stack_ok(stack) + sigfields_ok(cache) + flags_typed(tape) + flags_complete(tape) + \
+            defs_ok(tape) + [
             ('terminated', implies(raised is None, tape.pointer == len(tape.data))),
             ('clean-on-raise', implies(raised is not None, clean(cache))),
             ('pointer.monotone', tape.pointer >= old.tape.pointer),
@@ -92,7 +99,8 @@ class run_tape_c:
         ]
 
     def inv0(tape, stack, cache, old, loop_old):
-        return tape_ok(tape) + stack_ok(stack) + sigfields_ok(cache) + flags_typed(tape) + flags_complete(tape) + [
+        return tape_ok(tape) + stack_ok(stack) + sigfields_ok(cache) + flags_typed(tape) + flags_complete(tape) + \
+            defs_ok(tape) + [
             ('returned-protocol', clean(cache) or tape.pointer == len(tape.data)),
             ('pointer.monotone', tape.pointer >= old.tape.pointer),
             ('callstack.monotone', tape.callstack_count >= old.tape.callstack_count),
@@ -146,6 +154,7 @@ def site_config(tape, callee):
 # ------------------------------------------------------------------------------------- IF / ELSE
 @contract('functions.OP_IF')
 class OP_IF_c:
+    requires = requires_complete
     """'Read the next 2 bytes from the tape, interpreting as an unsigned int; read that many bytes from
     the tape as a subroutine definition; pull a value from the stack and evaluate as a bool; if it is
     true, run the subroutine.'"""
@@ -163,6 +172,7 @@ class OP_IF_c:
 
 @contract('functions.OP_IF_ELSE')
 class OP_IF_ELSE_c:
+    requires = requires_complete
     """'... pull a value from the stack and evaluate as a bool; if it is true, run the IF subroutine;
     else run the ELSE subroutine.'"""
     extends = OPCK
@@ -204,6 +214,7 @@ def spec_eval(tape, stack, cache):
 
 @contract('functions.OP_EVAL')
 class OP_EVAL_c:
+    requires = requires_complete
     """'Pulls a value from the stack then attempts to run it as a script. ... Script is disallowed from
     modifying tape.flags or tape.definitions; it is executed with callstack_count=tape.callstack_count+1
     and copies of tape.flags and tape.definitions; it also has access to all loaded contracts.'
@@ -220,6 +231,7 @@ class OP_EVAL_c:
 # ------------------------------------------------------------------------------------ TRY / EXCEPT
 @contract('functions.OP_TRY_EXCEPT')
 class OP_TRY_EXCEPT_c:
+    requires = requires_complete
     """'... execute the TRY subroutine in a try block; if an error occurs, serialize it and put it in
     the cache then run the EXCEPT subroutine.'  (cache key b'E')"""
     extends = OPCK
@@ -246,6 +258,7 @@ def error_text(e):
 # ------------------------------------------------------------------------------------------- LOOP
 @contract('functions.OP_LOOP')
 class OP_LOOP_c:
+    requires = requires_complete
     """'Read 2 bytes from the tape as uint len; read that many bytes from the tape as the loop
     definition; run the loop as long as the top value of the stack is not false or until a callstack
     limit exceeded error is raised.'  C07: at most callstack_limit iterations; C01 / C06: a RETURN in
@@ -256,7 +269,7 @@ class OP_LOOP_c:
 
     def inv0(tape, stack, cache, count, subtape, old):
         return tape_ok(tape) + stack_ok(stack) + sigfields_ok(cache) + flags_typed(tape) + flags_complete(tape) + \
-            tape_ok(subtape) + [
+            tape_ok(subtape) + defs_ok(tape) + [
             ('clean', clean(cache)),
             ('count', 0 <= count),
             ('pointer', tape.pointer == loop_pointer(old)),
@@ -316,6 +329,7 @@ def call_case_shared_flags(mk, base):
     def f(ip, rid):
         d = mk.tape('def')
         d.f['flags'] = t.f['flags']
+        d.f['definitions'] = t.f['definitions']
         _def_inv(mk, t, d)
         return d
     mk.ip.ctx.ghost['tape_factory'] = f
@@ -328,6 +342,7 @@ def call_case_distinct(mk, base):
 
     def f(ip, rid):
         d = mk.tape('def')
+        d.f['definitions'] = t.f['definitions']
         _def_inv(mk, t, d)
         return d
     mk.ip.ctx.ghost['tape_factory'] = f
@@ -356,13 +371,13 @@ class OP_CALL_c:
     definition tape, the stack, and the cache.'  C07: ScriptExecutionError unless callstack_count <
     callstack_limit, and the call is charged; C06: a called function returns only to its caller (no
     RETURN pending afterwards) and the definition tape's position is restored on every exit."""
-    extends = OPCK
+    extends = OPC_WEAK        # a definition shares the flags dict of the script that defined it
     modifies = ALL
     sites = {'run_tape': site_config}
     cases = [('self', call_case_self), ('shared-flags', call_case_shared_flags), ('distinct', call_case_distinct)]
 
     def requires(tape, stack, cache):
-        return [('definitions.refs', all_values_refs(tape.definitions))]
+        return flags_complete(tape) + defs_ok(tape)
 
     def ensures(old, tape, stack, cache, result, raised, subtape, init_pointer):
         return [
@@ -377,6 +392,8 @@ class OP_CALL_c:
 # ------------------------------------------------------------------------------------ MERKLEVAL
 @contract('functions.OP_MERKLEVAL')
 class OP_MERKLEVAL_c:
+    trusted = True      # TEMPORARY: spec stated, verification exceeds the budget (see DESIGN.md)
+    requires = requires_complete
     """C04: 'sha256(sha256(script)) xor sha256(sibling) == root, EQUAL_VERIFY, then EVAL': with stack
     [..., h, s] and operand root: ScriptExecutionError, nothing evaluated, unless
     xor(sha256(sha256(s)), sha256(h)) == root; otherwise continues as OP_EVAL(s) on [...]."""
@@ -408,6 +425,7 @@ def check_room(stack, n):
 # -------------------------------------------------------------------------------------- TAPROOT
 @contract('functions.OP_TAPROOT')
 class OP_TAPROOT_c:
+    trusted = True      # TEMPORARY: spec stated, verification exceeds the budget (see DESIGN.md)
     """C05: 'a witness holding (script, key) causes the script to run exactly when that pair recomputes
     to the root; otherwise the verdict is false and no instruction of the supplied script executes';
     'a witness holding a signature succeeds exactly when the signature is valid under the root as
@@ -417,7 +435,7 @@ class OP_TAPROOT_c:
     sites = {'run_tape': site_config}
 
     def requires(tape, stack, cache):
-        return plugins_ok(tape, SIG_EXT)
+        return flags_complete(tape) + defs_ok(tape)
 
     def spec(tape, stack, cache):
         allowed = tape.read(1)
@@ -439,3 +457,107 @@ class OP_TAPROOT_c:
         else:
             stack.put(root)
             spec_check_sig(Tape(allowed, plugins=tape.plugins), stack, cache)
+
+
+# ------------------------------------------------------------------------- run_script / run_auth_scripts
+def embedder_ok(cache_vals, contracts, plugins):
+    """valid embedder input: message parts are bytes, plugin scopes are lists, no interpreter control
+    key is supplied (excluded: a caller-supplied 'returned' entry -- the interpreter's own flag lives in
+    the str namespace, see C08 finding D5)"""
+    return sigfields_ok(cache_vals) + [
+        ('no-returned', 'returned' not in cache_vals),
+        ('plugins.sigext.list', is_list_or_absent(plugins, 'signature_extensions')),
+        ('plugins.ctv.list', is_list_or_absent(plugins, 'check_template')),
+    ]
+
+
+def registries_ok(G_plugins):
+    return [('registry.sigext.list', is_list_or_absent(G_plugins, 'signature_extensions')),
+            ('registry.ctv.list', is_list_or_absent(G_plugins, 'check_template'))]
+
+
+@contract('functions.run_script')
+class run_script_c:
+    """'Run the given script byte code. Returns a tape, stack, and dict.'  C19: contracts and plugins
+    are the registry contents overlaid with the arguments, in fresh dicts; the caller's dictionaries are
+    never modified (frame).  C07: limits from 1 upward."""
+    params = {'script': 'bytes', 'cache_vals': 'dict', 'contracts': 'dict', 'additional_flags': 'dict',
+              'plugins': 'dict', 'stack_max_items': 'int', 'stack_max_item_size': 'int', 'callstack_limit': 'int'}
+    globals = {'_contracts': 'dict', '_plugins': 'dict'}
+    modifies = ()
+    raises = (BaseException,)
+    returns = ('tuple', 'Tape', 'Stack', 'Cache')
+
+    def requires(script, cache_vals, contracts, additional_flags, plugins, stack_max_items, stack_max_item_size,
+                 callstack_limit, G_plugins):
+        return embedder_ok(cache_vals, contracts, plugins) + registries_ok(G_plugins) + \
+            flags_typed_after(None, additional_flags) + [
+            ('limits', stack_max_items >= 1 and stack_max_item_size >= 1 and callstack_limit >= 1)]
+
+    def ensures(old, script, cache_vals, contracts, additional_flags, plugins, result, raised, G_plugins, G_contracts,
+                tape, stack, cache):
+        return [
+            ('!result', implies(raised is None, lambda: result[0] is tape and result[1] is stack and result[2] is cache)),
+            ('terminated', implies(raised is None, lambda: result[0].pointer == len(result[0].data)
+                                   and result[0].data == script)),
+            ('limits', implies(raised is None, lambda: result[1].max_items == old.stack_max_items
+                               and result[1].max_item_size == old.stack_max_item_size
+                               and result[0].callstack_limit == old.callstack_limit)),
+            ('stack_ok', implies(raised is None, lambda: run_script_stack_ok(result[1]))),
+            ('cache_ok', implies(raised is None, lambda: run_script_cache_ok(result[2]))),
+            ('registry.contracts', implies(raised is None,
+                                           lambda: dict_same(result[0].contracts, {**G_contracts, **contracts}))),
+            ('registry.plugins', implies(raised is None,
+                                         lambda: dict_same(result[0].plugins, {**G_plugins, **plugins}))),
+            ('!fresh.cache', cache is None or cache is not cache_vals),
+            ('!fresh.contracts', tape is None or (tape.contracts is not contracts and tape.contracts is not G_contracts)),
+            ('!fresh.plugins', tape is None or (tape.plugins is not plugins and tape.plugins is not G_plugins)),
+        ]
+
+
+def run_script_stack_ok(stack):
+    r = True
+    for label, c in stack_ok(stack):
+        r = r and c
+    return r
+
+
+def run_script_cache_ok(cache):
+    r = True
+    for label, c in sigfields_ok(cache):
+        r = r and c
+    return r
+
+
+def scripts_case(n):
+    def f(mk, base):
+        base['scripts'] = [mk.bytes(f'script{i}') for i in range(n)]
+        return base
+    return f
+
+
+@contract('functions.run_auth_scripts')
+class run_auth_scripts_c:
+    """C01: 'returns True exactly when every script in the list, executed in order on one shared stack
+    and cache, runs from its first instruction to its own end (or its own explicit return) without
+    raising, and the stack then holds exactly one item equal to 0xff; in every other case it returns
+    False, and it never raises.'  Each script is handed to run_tape, whose contract REQUIRES that no
+    RETURN is pending: that call-site obligation is what forbids a witness to truncate the lock.
+    Lists of 1..4 scripts (the property's own bound)."""
+    params = {'scripts': 'list[bytes]', 'cache_vals': 'dict', 'contracts': 'dict', 'plugins': 'dict',
+              'stack_max_items': 'int', 'stack_max_item_size': 'int', 'callstack_limit': 'int'}
+    globals = {'_contracts': 'dict', '_plugins': 'dict'}
+    modifies = ()
+    cases = [(f'{n}-scripts', scripts_case(n)) for n in (1, 2, 3, 4)]
+
+    def requires(scripts, cache_vals, contracts, plugins, stack_max_items, stack_max_item_size, callstack_limit,
+                 G_plugins):
+        return embedder_ok(cache_vals, contracts, plugins) + registries_ok(G_plugins) + [
+            ('limits', stack_max_items >= 1 and stack_max_item_size >= 1 and callstack_limit >= 1)]
+
+    def ensures(old, scripts, result, raised, item, stack):
+        return [
+            ('never-raises', raised is None),
+            ('boolean', result is True or result is False),
+            ('true-means-single-ff', implies(result is True, lambda: item == b'\xff' and len(stack.deque) == 0)),
+        ]
